@@ -1,6 +1,8 @@
 import YgmVerif.Model.Router
 import YgmVerif.Model.Bcast
+import YgmVerif.Model.BcastP
 import Driver.Util
+import Driver.RouteP
 /-! mode `route`: layout tables, next-hop tables, routes, broadcast legs.
   `layout <N> <p> <me>`      -> `nl <node> <loc> | strided … | local … | r2n … | r2l …`
   `hops <N> <p> <me>`        -> `NONE h_0 … h_{n-1} | NR … | NLNR …`     (nextHop to every d)
@@ -8,6 +10,9 @@ import Driver.Util
   `route <SCH> <N> <p> <s> <d>` -> the route
   `offhops <SCH> <N> <p> <s> <d>` -> `a>b …` off-node hops
   `bcast <N> <p> <o>`        -> `legs s>d:k … | exec r …`
+  `layoutp <block|cyclic> <N> <p> <me>` -> the tables of `layout <N> <p> <me>` read off the `YgmVerif.BcastP.Placement`
+  `bcastp <block|cyclic> <N> <p> <o>` -> the same through the lookup tables of the placement (`YgmVerif.BcastP`)
+  `bcastpold <block|cyclic> <N> <p> <o>` -> … with the remote loop as it was before the repair (`+= local_size²`)
   `mcast <src> <d_1> … <d_k>` -> `exec d_1 … d_k`
 -/
 namespace Driver.Route
@@ -21,6 +26,12 @@ def scheme? : String → Option Scheme
 
 def showPairs (l : List (Nat × Nat)) : String :=
   " ".intercalate (l.map (fun h => s!"{h.1}>{h.2}"))
+
+/-- the placements the harness can run: N, p ↦ lookup tables -/
+def placement? : String → Option (Nat → Nat → YgmVerif.BcastP.Placement)
+  | "block" => some (fun _ p => YgmVerif.BcastP.block p)
+  | "cyclic" => some (fun N _ => YgmVerif.BcastP.cyclic N)
+  | _ => none
 
 def handle (line : String) : String :=
   match words line with
@@ -54,10 +65,29 @@ def handle (line : String) : String :=
       let legs := (bcastLegs N p o).map (fun g => s!"{g.src}>{g.dst}:{g.stage}")
       s!"legs {" ".intercalate legs} | exec {joinNats (bcastExec N p o)}"
     | _ => "bad-op"
+  | "layoutp" :: pl :: rest =>
+    match placement? pl, nats? rest with
+    | some mkP, some [N, p, me] =>
+      let P := mkP N p
+      let all := List.range (N * p)
+      s!"nl {P.nodeId me} {P.localId me} | strided {joinNats (YgmVerif.BcastP.stridedRanks P N me)} | local {joinNats (YgmVerif.BcastP.localRanks P p me)} | r2n {joinNats (all.map P.nodeId)} | r2l {joinNats (all.map P.localId)}"
+    | _, _ => "bad-op"
+  | "bcastp" :: pl :: rest =>
+    match placement? pl, nats? rest with
+    | some mkP, some [N, p, o] =>
+      let legs := (YgmVerif.BcastP.bcastLegs N p (mkP N p) o).map (fun g => s!"{g.src}>{g.dst}:{g.stage}")
+      s!"legs {" ".intercalate legs} | exec {joinNats (YgmVerif.BcastP.bcastExec N p (mkP N p) o)}"
+    | _, _ => "bad-op"
+  | "bcastpold" :: pl :: rest =>
+    match placement? pl, nats? rest with
+    | some mkP, some [N, p, o] =>
+      let legs := (YgmVerif.BcastP.bcastLegsOld N p (mkP N p) o).map (fun g => s!"{g.src}>{g.dst}:{g.stage}")
+      s!"legs {" ".intercalate legs} | exec {joinNats (YgmVerif.BcastP.bcastExecOld N p (mkP N p) o)}"
+    | _, _ => "bad-op"
   | "mcast" :: rest =>
     match nats? rest with
     | some (src :: dests) => s!"exec {joinNats (mcastExec src dests)}"
     | _ => "bad-op"
-  | _ => "bad-op"
+  | ws => (Driver.RouteP.handle? ws).getD "bad-op"   -- placement-generic commands (Driver/RouteP.lean)
 
 end Driver.Route
